@@ -515,6 +515,9 @@ def isinstance_model(interp, v, cls):
             return isinstance(None, cls)
         return isinstance_model(interp, v.val, cls)
     if not isinstance(v, Sym):
+        if isinstance(v, (Sink, Source)):
+            interp.ctx.effects.append(("iface", f"isinstance({v.name}, ...)", "type test on the stream parameter"))
+            raise IfaceViolation("IFACE: behaviour depends on the kind of stream (isinstance test on the buffer)")
         if hasattr(v, "kvc_symbolic"):
             return False if cls in (str, bytes, int, float, tuple) else isinstance(v, cls)
         if type(type(cls)).__name__ == "PhantomMeta" or type(cls).__name__ == "PhantomMeta":
@@ -587,6 +590,32 @@ def m_getattr(interp, fr, o, name, *default):
         if default and r.cls is AttributeError:
             return default[0]
         raise
+
+
+def m_hasattr(interp, fr, o, name):
+    if isinstance(name, Sym):
+        raise Undecided("hasattr with symbolic name")
+    if isinstance(o, (Sink, Source)):
+        if name in ("write",) and isinstance(o, Sink) or name in ("read",) and isinstance(o, Source):
+            return True
+        interp.ctx.effects.append(("iface", f"hasattr({o.name}, {name!r})", "attribute probe on the stream parameter"))
+        raise IfaceViolation(f"IFACE: behaviour depends on the kind of stream (hasattr(buffer, {name!r}))")
+    try:
+        interp.getattr_(o, name, fr)
+        return True
+    except PyRaise as r:
+        if r.cls is AttributeError:
+            return False
+        raise
+
+
+def m_type(interp, fr, *args):
+    if len(args) == 1 and isinstance(args[0], (Sink, Source)):
+        interp.ctx.effects.append(("iface", f"type({args[0].name})", "type test on the stream parameter"))
+        raise IfaceViolation("IFACE: behaviour depends on the kind of stream (type(buffer))")
+    if len(args) == 1 and isinstance(args[0], Sym):
+        return py_kind(args[0])
+    return type(*args)
 
 
 def m_struct_pack(interp, fr, fmt, *vals):
@@ -903,6 +932,8 @@ def base_models():
         len: m_len,
         isinstance: m_isinstance,
         getattr: m_getattr,
+        hasattr: m_hasattr,
+        type: m_type,
         struct.pack: m_struct_pack,
         struct.unpack: m_struct_unpack,
         io.BytesIO: m_bytesio,
